@@ -731,13 +731,52 @@ func c20Case(c *core.Ctx, idx int) {
 			rec.Sample(map[string]any{"flags": fl.String(), "input": src, "output": out})
 		}
 	}
+	// several files in one invocation: each comes out as it does when it is the only one
+	if idx%3 == 1 {
+		fl := c20Flags{w: true, json: idx%2 == 0, sql: true, private: true}
+		srcs := []string{src, c20Source(r), c20Source(r)}
+		var single []string
+		for _, s := range srcs {
+			o, _, code, err := runTool(bin, dir, s, fl)
+			if err != nil || code != 0 {
+				return // (the single-file checks above report what is wrong with a file)
+			}
+			single = append(single, o)
+		}
+		var names []string
+		for i, s := range srcs {
+			fn := filepath.Join(dir, fmt.Sprintf("multi%d.go", i))
+			if err := os.WriteFile(fn, []byte(s), 0o644); err != nil {
+				rec.Violation("harness", err.Error(), nil)
+				return
+			}
+			names = append(names, fn)
+		}
+		cmd := exec.Command(bin, append(fl.args(), names...)...)
+		var se bytes.Buffer
+		cmd.Stderr = &se
+		cmd.Run()
+		rec.Eval(1)
+		if code := cmd.ProcessState.ExitCode(); code != 0 {
+			rec.Violation("plenctag-error", fmt.Sprintf("plenctag %s on three files at once fails (exit %d), on each of them alone it succeeds: %s", fl, code, trunc1(se.String())), map[string]any{"flags": fl.String(), "sources": srcs})
+			return
+		}
+		for i, fn := range names {
+			b, _ := os.ReadFile(fn)
+			if string(b) != single[i] {
+				rec.Violation("changed-more-than-tags", fmt.Sprintf("plenctag %s on three files at once: file %d comes out differently from a run on that file alone\n--- alone\n%s\n--- as one of three\n%s", fl, i+1, single[i], string(b)), map[string]any{"flags": fl.String(), "sources": srcs})
+				return
+			}
+		}
+		rec.Count("multi_file_invocations", 1)
+	}
 }
 
 func init() {
 	core.Register(&core.Prop{
 		ID:        "C20",
 		Technique: "black-box monitor of the real plenctag binary (built from /repo) on generated Go files under all 16 flag combinations: AST comparison with tags blanked, independent re-statement of the tag rules, gofmt fixed point, go/types check, the real CodecForType on reflect twins of the output's structs, second-run idempotence",
-		Rule:      "generated files: named, grouped, generic and function-local struct types, anonymous and nested anonymous structs as field / slice element / map value / function parameter and result / composite literal, embedded T, *T, pkg.T and unexported types, multi-name fields, blank fields, doc and trailing comments, no / partial / complete plenc tags with options, other keys in random order incl. json:\"-\" and sql:\"-\"; every file under the 16 combinations of -w -json -sql -private, plus unparsable sources, malformed tags and an unreadable path. distinct = (file, flag set) pairs that passed every check",
+		Rule:      "generated files: named, grouped, generic and function-local struct types, anonymous and nested anonymous structs as field / slice element / map value / function parameter and result / composite literal, embedded T, *T, pkg.T and unexported types, multi-name fields, blank fields, doc and trailing comments, no / partial / complete plenc tags with options, other keys in random order incl. json:\"-\" and sql:\"-\"; every file under the 16 combinations of -w -json -sql -private, every third also as one of three files of one invocation, plus unparsable sources, malformed tags and an unreadable path. distinct = (file, flag set) pairs that passed every check",
 		Assume:    []string{"for -w=false the result is what the tool prints minus the newline fmt.Println adds", "go/parser, go/format, go/types (source importer) as independent judges", "twin structs use int for every field type: only tag errors are in question"},
 		Plan: func(tier string) []core.Lane {
 			if tier == "thorough" {
